@@ -74,6 +74,29 @@ def _serialisable(rec):
         return f"{type(e).__name__}: {e}"
 
 
+def c05_json_writable(ftype, src, indent=None):
+    """an accepted text value can be written by the JSON writer (line by line or indented) to a file it opens itself"""
+    import tempfile
+
+    from flow.record import RecordDescriptor
+    from flow.record.adapter.jsonfile import JsonfileWriter
+
+    D = RecordDescriptor("c05/rec", [(ftype, "x"), ("varint", "n")])
+    rec = D(n=1)
+    try:
+        rec.x = _eval(src)
+    except Exception as e:
+        return {"violates": False, "note": f"value rejected: {type(e).__name__}"}
+    with tempfile.TemporaryDirectory() as td:
+        try:
+            w = JsonfileWriter(os.path.join(td, "out.json"), indent=indent)
+            w.write(rec)
+            w.close()
+        except Exception as e:
+            return {"violates": True, "detail": f"the JSON writer (indent={indent}) raised {type(e).__name__}: {e}"}
+    return {"violates": False}
+
+
 def c05_assign(ftype, src, how="setattr", other="5"):
     """One operation on a record with a field `x` of type ftype (and a varint field n): setattr / init / replace with the value `src`."""
     from flow.record import RecordDescriptor
@@ -138,6 +161,32 @@ def c05_expect(ftype, src, valid, how="setattr"):
         r["problems"].append(f"a value the type cannot represent was accepted as {r.get('slot')}")
     r["violates"] = bool(r["problems"])
     return r
+
+
+def c05_cross_value(src_type, dst_type, x):
+    """a field value of one integer type (taken from another record) offered to a field of another integer type: the target's range decides"""
+    from flow.record import RecordDescriptor
+
+    lim = {"uint16": 0xFFFF, "uint32": 0xFFFFFFFF, "net.tcp.Port": 0xFFFF, "net.udp.Port": 0xFFFF, "boolean": 1}[dst_type.replace("[]", "")]
+    try:
+        src = RecordDescriptor("c05/src", [(src_type, "v")])(v=int(x)).v
+    except Exception as e:
+        return {"violates": False, "note": f"source value rejected: {type(e).__name__}"}
+    rec = RecordDescriptor("c05/rec", [(dst_type, "x"), ("varint", "n")])(n=1)
+    try:
+        rec.x = [src] if dst_type.endswith("[]") else src
+        accepted = True
+    except Exception:
+        accepted = False
+    valid = 0 <= int(x) <= lim
+    bad = None
+    if accepted and not valid:
+        bad = f"a {dst_type} field accepted the {src_type} field value {int(x)} (outside 0..{lim}) and holds {rec.x!r}"
+    elif accepted and _serialisable(rec):
+        bad = f"accepted, but the record cannot be serialised: {_serialisable(rec)}"
+    elif not accepted and valid:
+        bad = f"a {dst_type} field rejected the representable {src_type} field value {int(x)}"
+    return {"violates": bool(bad), "detail": bad}
 
 
 def c05_range(ftype, x):
@@ -342,4 +391,4 @@ def c05_cross_types(seed, n):
     return {"violates": False, "cases": cases}
 
 
-CALLS = {"c05_assign": c05_assign, "c05_expect": c05_expect, "c05_range": c05_range, "c05_outcome": c05_outcome, "c05_cross_types": c05_cross_types, "c05_digest": c05_digest, "c05_legacy_list": c05_legacy_list, "c05_list_pair": c05_list_pair, "c05_init": c05_init, "c05_replace": c05_replace, "c05_capture": c05_capture, "c05_decode": c05_decode}
+CALLS = {"c05_json_writable": c05_json_writable, "c05_cross_value": c05_cross_value, "c05_assign": c05_assign, "c05_expect": c05_expect, "c05_range": c05_range, "c05_outcome": c05_outcome, "c05_cross_types": c05_cross_types, "c05_digest": c05_digest, "c05_legacy_list": c05_legacy_list, "c05_list_pair": c05_list_pair, "c05_init": c05_init, "c05_replace": c05_replace, "c05_capture": c05_capture, "c05_decode": c05_decode}
